@@ -98,6 +98,9 @@ Definition delta_alpha (w : Z) : option (Z * Z) :=
   end.
 
 Section YP.
+  (* the word operations of appendix H.2; the theorems instantiate this with [spec_op], the correspondence run with
+     the evaluation-friendly variant (Z.pow with a 256-bit exponent cannot be evaluated) *)
+  Variable wop : op -> Z -> Z -> Z -> Z.
   Variable defined : Z -> bool.      (* the instructions of the fork: delta_w is defined *)
   Variable hash : list Z -> Z.       (* KEC, as a number *)
   Variable E : env.                  (* I_a, I_o, I_s, I_v, I_p, I_H fields, chain id, sigma[I_a]_b *)
@@ -125,9 +128,9 @@ Section YP.
     let cont stk := YNext (mkY (pc + 1) stk m i) in
     match arith_of w with
     | Some (o, a) =>
-        if a =? 1 then cont (spec_op o s0 0 0 :: skipn 1 s)
-        else if a =? 2 then cont (spec_op o s0 s1 0 :: skipn 2 s)
-        else cont (spec_op o s0 s1 s2 :: skipn 3 s)
+        if a =? 1 then cont (wop o s0 0 0 :: skipn 1 s)
+        else if a =? 2 then cont (wop o s0 s1 0 :: skipn 2 s)
+        else cont (wop o s0 s1 s2 :: skipn 3 s)
     | None =>
     match env_of w with
     | Some k => cont (env_get E k :: s)
